@@ -237,4 +237,16 @@ def Shear6.narrowFromV3 {α : Type} {β : Type} [OfNat α 0] (cast : β → α) 
   let t669 := (cast a.z)
   (⟨t665, t666, t669, (0 : α), (0 : α), (0 : α)⟩, ⟨t665, t666, t669, (0 : α), (0 : α), (0 : α)⟩)
 
+/-- extracted from the C++ template at T = Sym; 1 path(s) -/
+def Shear6.assign {α : Type} (a : Shear6 α) (b : Shear6 α) : (Shear6 α) :=
+  ⟨b.xy, b.xz, b.yz, b.yx, b.zx, b.zy⟩
+
+/-- extracted from the C++ template at T = Sym; 1 path(s) -/
+def Shear6.copyCtor {α : Type} (a : Shear6 α) : (Shear6 α) :=
+  ⟨a.xy, a.xz, a.yz, a.yx, a.zx, a.zy⟩
+
+/-- extracted from the C++ template at T = Sym; 1 path(s) -/
+def Shear6.ctorElems {α : Type} (a : Shear6 α) : (Shear6 α) :=
+  ⟨a.xy, a.xz, a.yz, a.yx, a.zx, a.zy⟩
+
 end ImathVerif.Gen
